@@ -142,10 +142,13 @@ func runC20_2(c *core.Ctx) {
 				in |= fGuard
 			}
 		}
-		// n <= 2 false
-		if flow.ObjOf(f.Info, x) == types.Object(n) && op == token.LEQ && !e.Sense {
+		// n <= 2 false, in any spelling: the edge establishes n >= 2
+		if flow.ObjOf(f.Info, x) == types.Object(n) {
 			if cv := flow.ConstOf(f.Info, y); cv != nil {
-				if k, _ := constant.Int64Val(cv); k >= 1 {
+				k, _ := constant.Int64Val(constant.ToInt(cv))
+				switch {
+				case (op == token.LEQ && !e.Sense || op == token.GTR && e.Sense) && k >= 1,
+					(op == token.LSS && !e.Sense || op == token.GEQ && e.Sense) && k >= 2:
 					in |= fSmall
 				}
 			}
@@ -205,43 +208,75 @@ func runC20_2(c *core.Ctx) {
 	if ip == nil {
 		return
 	}
-	okShape := false
-	if len(ip.Decl.Body.List) == 1 {
-		if r, ok := ip.Decl.Body.List[0].(*ast.ReturnStmt); ok && len(r.Results) == 1 {
-			if and, ok := ast.Unparen(r.Results[0]).(*ast.BinaryExpr); ok && and.Op == token.LAND {
-				x, y, op, ok1 := flow.Cmp(and.X)
-				// n > 0, n >= 1, 0 < n, 1 <= n
-				pos := false
-				if ok1 {
-					isN := func(e ast.Expr) bool { return flow.ObjOf(ip.Info, e) == types.Object(ip.param(0)) }
-					cst := func(e ast.Expr) (int64, bool) {
-						if cv := flow.ConstOf(ip.Info, e); cv != nil {
-							return constant.Int64Val(constant.ToInt(cv))
-						}
-						return 0, false
-					}
-					if k, isC := cst(y); isC && isN(x) {
-						pos = (op == token.GTR && k == 0) || (op == token.GEQ && k == 1)
-					}
-					if k, isC := cst(x); isC && isN(y) {
-						pos = (op == token.LSS && k == 0) || (op == token.LEQ && k == 1)
-					}
-				}
-				l, r2, op2, ok2 := flow.Cmp(and.Y)
-				mask := false
-				if ok2 && op2 == token.EQL && flow.ConstOf(ip.Info, r2) != nil && constant.Sign(flow.ConstOf(ip.Info, r2)) == 0 {
-					if be, ok := ast.Unparen(l).(*ast.BinaryExpr); ok && be.Op == token.AND && flow.ObjOf(ip.Info, be.X) == types.Object(ip.param(0)) {
-						if sub, ok := ast.Unparen(be.Y).(*ast.BinaryExpr); ok && sub.Op == token.SUB && flow.ObjOf(ip.Info, sub.X) == types.Object(ip.param(0)) &&
-							flow.ConstOf(ip.Info, sub.Y) != nil && flow.ConstOf(ip.Info, sub.Y).ExactString() == "1" {
-							mask = true
-						}
-					}
-				}
-				okShape = pos && mask
+	// decided per class of n (negative, zero, positive) and truth of the mask test n&(n-1) == 0:
+	// the function must answer true exactly for positive n whose mask test holds
+	np := types.Object(ip.param(0))
+	isMask := func(e ast.Expr) bool { // n & (n-1), either order
+		be, ok := ast.Unparen(e).(*ast.BinaryExpr)
+		if !ok || be.Op != token.AND {
+			return false
+		}
+		l, r := ast.Unparen(be.X), ast.Unparen(be.Y)
+		if flow.ObjOf(ip.Info, l) != np {
+			l, r = r, l
+		}
+		sub, ok := r.(*ast.BinaryExpr)
+		return ok && flow.ObjOf(ip.Info, l) == np && sub.Op == token.SUB && flow.ObjOf(ip.Info, sub.X) == np &&
+			flow.ConstOf(ip.Info, sub.Y) != nil && flow.ConstOf(ip.Info, sub.Y).ExactString() == "1"
+	}
+	okShape := true
+	whyShape := ""
+	type valuation struct {
+		name string
+		cls  ival
+		mask bool
+	}
+	for _, v := range []valuation{
+		{"negative n whose n&(n-1) is 0 (the minimum int)", ival{loInf: true, hi: -1}, true},
+		{"negative n", ival{loInf: true, hi: -1}, false},
+		{"n = 0", ival{lo: 0, hi: 0}, true},
+		{"a positive power of two", ival{lo: 1, hiInf: true}, true},
+		{"a positive n that is not a power of two", ival{lo: 1, hiInf: true}, false},
+	} {
+		v := v
+		env := &absEnv{f: ip, n: np, cls: v.cls}
+		env.atom = func(e ast.Expr) (bool, bool) {
+			x, y, op, ok := flow.Cmp(e)
+			if !ok || (op != token.EQL && op != token.NEQ) {
+				return false, false
 			}
+			if isMask(y) {
+				x, y = y, x
+			}
+			if !isMask(x) {
+				return false, false
+			}
+			if cv := flow.ConstOf(ip.Info, y); cv == nil || constant.Sign(cv) != 0 {
+				return false, false
+			}
+			return (op == token.EQL) == v.mask, true
+		}
+		ret, ok := env.run()
+		if !ok || ret == nil || len(ret.Results) != 1 {
+			okShape, whyShape = false, "the path taken for "+v.name+" is decided by something other than comparisons of n with constants and the test n&(n-1) == 0"
+			break
+		}
+		got, ok := env.eval(ret.Results[0])
+		if !ok {
+			okShape, whyShape = false, "the value returned for "+v.name+" is not decided by comparisons of n with constants and the test n&(n-1) == 0"
+			break
+		}
+		if want := v.cls.lo >= 1 && !v.cls.loInf && v.mask; got != want {
+			okShape = false
+			if got {
+				whyShape = "it answers true for " + v.name
+			} else {
+				whyShape = "it answers false for " + v.name
+			}
+			break
 		}
 	}
-	c.Check(okShape, ip.Name, "n > 0 && n&(n-1) == 0", ip.Decl.Pos(), "canonical power-of-two test", "IsPowerOfTwo is no longer `n > 0 && n&(n-1) == 0` (e.g. accepts 0 or negative numbers)")
+	c.Check(okShape, ip.Name, "n > 0 && n&(n-1) == 0", ip.Decl.Pos(), "true exactly for positive n with n&(n-1) == 0, decided for every sign class of n and both outcomes of the mask test", "IsPowerOfTwo is no longer equivalent to `n > 0 && n&(n-1) == 0`: "+whyShape)
 }
 
 type gfdUse struct {
